@@ -354,6 +354,122 @@ theorem gen_bkReaderHas_total (xx : List UInt8 → UInt64) (c : List UInt8) (tab
   | no => rw [h] at this; exact ⟨_, this⟩
   | err => rw [h] at this; obtain ⟨e, _, he⟩ := this; exact ⟨_, he⟩
 
+/-! ### `hasSpec` is the model's `BK.hasB` (the reader the no-false-negative theorems of C05 are about) -/
+
+/-- the search does not depend on the fuel once the fuel exceeds what is left of the table -/
+theorem searchB_fuel (get : Nat → Option Nat) (x max : Nat) :
+    ∀ (f1 f2 n : Nat), max < n + f1 → max < n + f2 → BK.searchB get x max f1 n = BK.searchB get x max f2 n := by
+  intro f1
+  induction f1 with
+  | zero =>
+    intro f2 n h1 h2
+    cases f2 with
+    | zero => rfl
+    | succ f2 =>
+      have : ¬ n < max := by omega
+      simp [BK.searchB, this]
+  | succ f1 ih =>
+    intro f2 n h1 h2
+    cases f2 with
+    | zero =>
+      have : ¬ n < max := by omega
+      simp [BK.searchB, this]
+    | succ f2 =>
+      rw [BK.searchB, BK.searchB]
+      by_cases hn : n < max
+      · simp only [hn, if_true]
+        cases get n with
+        | none => rfl
+        | some k =>
+          simp only
+          by_cases hk : k = x
+          · simp [hk]
+          · simp only [hk, if_false]
+            by_cases hl : k < x
+            · simp only [hl, if_true]; exact ih f2 (2 * n + 2) (by omega) (by omega)
+            · simp only [hl, if_false]; exact ih f2 (2 * n + 1) (by omega) (by omega)
+      · simp only [hn, if_false]
+
+/-- the prefix table of a version-2 reader as the array of 65 536 `uint64` the Go reader holds -/
+def TableRep (t : Array (Option Nat)) (T : List UInt64) : Prop :=
+  T.length = 65536 ∧ ∀ p, p < 65536 →
+    match t.getD p none with
+    | none => T.getD p 0 = 18446744073709551615
+    | some off => off < 2 ^ 64 ∧ T.getD p 0 = UInt64.ofNat off
+
+/-- **`hasSpec` over the content = the model's `hasB` over the file**, for a version-2 reader whose content starts at `base` -/
+theorem hasSpec_eq_hasB (l : List UInt8) (r : BK.Rdr) (T : List UInt64) (p x fuel : Nat)
+    (hv2 : r.fmt = .v2) (hT : TableRep r.table T) (hp : p < 65536) (hbase : r.base ≤ l.length) (hf : 2 ^ 32 ≤ fuel) :
+    hasSpec (l.drop r.base) T p x fuel = BK.hasB l.toArray r p x := by
+  obtain ⟨_, hrep⟩ := hT
+  have hr := hrep p hp
+  unfold hasSpec BK.hasB
+  cases ht : r.table.getD p none with
+  | none =>
+    rw [ht] at hr
+    simp only at hr
+    rw [hr]
+    simp
+  | some off =>
+    rw [ht] at hr
+    obtain ⟨holt, hTo⟩ := hr
+    rw [hTo]
+    have hton : (UInt64.ofNat off).toNat = off := by rw [UInt64.toNat_ofNat']; exact Nat.mod_eq_of_lt holt
+    simp only [hton, hv2, true_and]
+    by_cases hmax : off = 2 ^ 64 - 1
+    · simp [hmax]
+    · simp only [hmax, if_false]
+      by_cases hneg : off ≥ 2 ^ 63
+      · simp [hneg]
+      · simp only [hneg, if_false]
+        rw [BK.rd_toArray]
+        have hlen : (l.drop r.base).length = l.length - r.base := by simp
+        by_cases h4 : off + 4 > (l.drop r.base).length
+        · have : ¬ (r.base + off + 4 ≤ l.length) := by rw [hlen] at h4; omega
+          simp only [h4, if_true, this, if_false]
+        · have h4' : r.base + off + 4 ≤ l.length := by rw [hlen] at h4; omega
+          simp only [h4, if_false, h4', if_true]
+          have hnbeq : B.slice l (r.base + off) 4 = ((l.drop r.base).drop off).take 4 := by
+            unfold B.slice; rw [List.drop_drop]
+          rw [hnbeq]
+          have hnb := unle4_lt ((l.drop r.base).drop off)
+          generalize B.unle (((l.drop r.base).drop off).take 4) = nb at hnb ⊢
+          have hget : getSpec (l.drop r.base) (off + 4) ((nb * 8) % 2 ^ 32)
+              = (fun i => if i * 8 + 8 ≤ (nb * 8) % 2 ^ 32 then (BK.rd l.toArray (r.base + off + 4 + i * 8) 8).map B.unle else none) := by
+            funext i
+            unfold getSpec
+            by_cases hi : i * 8 + 8 ≤ (nb * 8) % 2 ^ 32
+            · simp only [hi, if_true]
+              rw [BK.rd_toArray]
+              by_cases h8 : off + 4 + i * 8 + 8 ≤ (l.drop r.base).length
+              · have h8' : r.base + off + 4 + i * 8 + 8 ≤ l.length := by rw [hlen] at h8; omega
+                simp only [h8, if_true, h8', Option.map_some]
+                unfold B.slice
+                rw [List.drop_drop]
+                congr 4
+                omega
+              · have h8' : ¬ (r.base + off + 4 + i * 8 + 8 ≤ l.length) := by rw [hlen] at h8; omega
+                simp only [h8, if_false, h8', Option.map_none]
+            · simp only [hi, if_false]
+          rw [hget]
+          exact searchB_fuel _ x nb fuel (nb + 1) 0 (by omega) (by omega)
+
+/-- the chain on the code in the tree: translated `Reader.Has` over the content of a version-2 file answers what the
+    model's `hasB` answers (the function `has_bytes_agree` / `seal_has_bytes` / `has_only_if_bytes` of C05 are stated about) -/
+theorem gen_bkReaderHas_eq_hasB (xx : List UInt8 → UInt64) (l : List UInt8) (r : BK.Rdr) (T : List UInt64) (m : Indexmeta_Meta)
+    (a b : UInt8) (rest : List UInt8) (fuel : Nat)
+    (hv2 : r.fmt = .v2) (hT : TableRep r.table T) (hbase : r.base ≤ l.length) (hl : l.length < 2 ^ 61) (hf : 2 ^ 32 ≤ fuel) :
+    match BK.hasB l.toArray r (BK.prefixOf [a, b]) (xx (a :: b :: rest)).toNat with
+    | .yes => bkReaderHas xx fuel { contentReader := memRd (l.drop r.base), meta_ := m, prefixToOffset := T } (a :: b :: rest) = .ok (true, Go.Error.nil)
+    | .no => bkReaderHas xx fuel { contentReader := memRd (l.drop r.base), meta_ := m, prefixToOffset := T } (a :: b :: rest) = .ok (false, Go.Error.nil)
+    | .err => ∃ e, e ≠ Go.Error.nil ∧
+        bkReaderHas xx fuel { contentReader := memRd (l.drop r.base), meta_ := m, prefixToOffset := T } (a :: b :: rest) = .ok (false, e) := by
+  have hp : BK.prefixOf [a, b] < 65536 := by
+    unfold BK.prefixOf; have := a.toNat_lt; have := b.toNat_lt; simp; omega
+  have := gen_bkReaderHas_eq_spec xx (l.drop r.base) T m a b rest fuel hT.1 (by simp; omega) hf
+  rw [hasSpec_eq_hasB l r T _ _ fuel hv2 hT hp hbase hf] at this
+  exact this
+
 /-! examples (the spec on a bucket of two hashes laid out as [5, 3]; prefix 0 has the bucket at content offset 0) -/
 def exContent : List UInt8 := [2, 0, 0, 0] ++ B.le 8 5 ++ B.le 8 3
 def exTable : List UInt64 := 0 :: List.replicate 65535 18446744073709551615
